@@ -10,4 +10,6 @@ DeltasQuick == {0, 1, 2}
 DeltasThorough == {0, 1, 2, 3}
 \* a cfg file cannot hold negative numbers: out-of-order input (only the order-independent clauses are claimed)
 DeltasUnsorted == {-2, -1, 0, 1, 3}
+\* larger constants for -simulate
+DeltasSim == {0, 1, 2, 3, 5}
 ====
